@@ -49,8 +49,8 @@ _Q = {
     'subset-of-slice': 30, 'nul-family-ids': 60, 'prefix-family-ids': 40, 'rowchanging-pre': 10,
     'out-of-view-probe-nul-variant': 600,
 }
-# thorough runs 15x the quick number of histories
-MIN_HITS = {'quick': _Q, 'thorough': {k: 15 * v for k, v in _Q.items()}}
+# thorough runs 10x the quick number of histories
+MIN_HITS = {'quick': _Q, 'thorough': {k: 10 * v for k, v in _Q.items()}}
 TECHNIQUE = ('runtime monitoring: dict reference model + 5-way implementation differential (in-memory, SQLite via the real '
              'builder, both subset-wrapped, SQLite under reverse_unordered_selects) over random view-operation histories with '
              'value-tracing preprocessors and re-observation of every ancestor view')
@@ -714,7 +714,7 @@ def run(ctx):
   from fedjax.core import sqlite_federated_data as sq
   model_selfcheck()
   install_contract(ctx, fdm)
-  ncases = 400 if ctx.quick else 6000
+  ncases = 400 if ctx.quick else 4000
   tmpdir = tempfile.mkdtemp(prefix='vmon-c08-', dir=os.environ.get('VMON_WORK') or None)
   try:
     for cid, rng in ctx.cases('hist', ncases):
